@@ -476,16 +476,16 @@ def cases(rng, tier):
         add(kind, f"{probe} {hx(b)}", show=(b[:200].decode("utf-8", "replace") + ("..." if len(b) > 200 else "")), **kw)
 
     # (rt) printed well-formed ASTs, every keyword casing
-    for i in range(6000 if big else 900):
+    for i in range(150000 if big else 900):
         q = g_query(rng)
         mode = rng.below(3)
         add("rt", None, show=None, ast_line="parse_print %d %s" % (mode, " ".join(enc_query(q))), expect="OK " + canon_query(q))
     # deeper expressions, still printed by the model
-    for i in range(400 if big else 60):
+    for i in range(2000 if big else 60):
         q = g_query(rng, depth=rng.range(5, 7))
         add("rt", None, ast_line="parse_print %d %s" % (rng.below(3), " ".join(enc_query(q))), expect="OK " + canon_query(q))
     # (rtkw) the same with identifiers whose leading letters spell a keyword: valid identifiers of the grammar
-    for i in range(600 if big else 120):
+    for i in range(3000 if big else 120):
         q = g_query(rng, depth=1)
         which = rng.below(5)
         kid = lambda: g_ident(rng, True)
@@ -501,12 +501,12 @@ def cases(rng, tier):
             q["order"] = (kid(), False)
         add("rtkw", None, ast_line="parse_print 0 " + " ".join(enc_query(q)), expect="OK " + canon_query(q))
     # (grammar) free-form texts
-    for i in range(60000 if big else 1500):
+    for i in range(300000 if big else 1500):
         addt("grammar", t_query(rng))
-    for i in range(30000 if big else 900):
+    for i in range(150000 if big else 900):
         addt("other", t_other(rng))
     # (mut) mutations
-    for i in range(80000 if big else 1800):
+    for i in range(400000 if big else 1800):
         base_ = t_query(rng) if rng.chance(2, 3) else t_other(rng)
         addt("mut", mutate(rng, base_))
     # (num) numeric terminals
@@ -557,7 +557,7 @@ def cases(rng, tier):
         addt("nest", "BATCH [" + ";".join(["PING"] * n) + "]")
     # (rand)
     words = KEYWORDS + OTHER_WORDS
-    for i in range(40000 if big else 1200):
+    for i in range(200000 if big else 1200):
         r = rng.below(4)
         if r == 0:
             b = bytes(rng.below(256) for _ in range(rng.range(0, 40))).decode("utf-8", "replace")
@@ -685,8 +685,20 @@ def same(c, impl, model):
         return True
     if impl in ("ABORT", "TIMEOUT"):
         return True          # resource exhaustion: always reported by the oracle, never by the model
+    if model.startswith("DOMAIN|") and c["line"].startswith("parse_cmd"):
+        # non-ASCII outside string literals: the tokenizer either rejects the input or the grammar's result stands
+        if impl == "ERR":
+            return True
+        c2 = dict(c)
+        return same(c2, impl, model[7:])
     if model in ("DOMAIN", "UNMODELLED") or model.startswith("UNMODELLED"):
         return True          # outside the model's domain: totality oracle only
+    if c["line"].startswith("parse_disp") and model.startswith("S "):
+        try:
+            _strict_json(unhx(model[2:]))
+            return impl == "RESP"
+        except _BadJson:
+            return impl == "NOPARSE"
     if model.startswith("PANIC"):
         return impl == "PANIC"
     if model.startswith("OK S ") and c["line"].startswith("parse_cmd"):
@@ -748,6 +760,8 @@ def _max_paren_depth(b):
 def classify(c, impl):
     line = c["line"]
     m = c.get("_model") or ""
+    if m.startswith("DOMAIN|"):
+        m = m[7:]
     b = _text(c)
     up = b.strip().upper()
     if line.startswith("parse_kind"):
